@@ -139,11 +139,13 @@ def render(prog, name='wf', jinja=False):
         for k in ('publish', 'publish-on-error', 'publish-on-skip'):
             if t.get(k):
                 d[k] = _expr_deep(t[k], jinja)
-        if t.get('on-success-publish'):
-            # transition-level publish (advanced syntax)
-            d['on-success'] = {
-                'publish': _expr_deep(t['on-success-publish'], jinja),
-                'next': _clause(t.get('on-success', []), jinja)}
+        for ck in ('on-success', 'on-error', 'on-complete'):
+            if t.get(ck + '-publish'):
+                # transition-level publish (advanced syntax)
+                d[ck] = {
+                    'publish': _expr_deep(t[ck + '-publish'], jinja)}
+                if t.get(ck):
+                    d[ck]['next'] = _clause(t[ck], jinja)
         tasks[tn] = d
     wf['tasks'] = tasks
     doc = {'version': '2.0', name: wf}
@@ -668,6 +670,42 @@ def dataflow_shapes():
             'd': T(join='one', publish={'w': ['var', 'v']}),
             'e': T()},
             input={'w': 0}, output=out)
+    # transition-level publish: branch variables (win over the task-level
+    # ones) and global variables (visible to tasks that do not descend from
+    # the publisher once they are published)
+    for fresh in ('b', 'c'):
+        other = 'c' if fresh == 'b' else 'b'
+        P['clause_branch_%s' % fresh] = direct({
+            'a': T(publish={'v': ['lit', 1]}, **{'on-success': ['b', 'c']}),
+            fresh: T(publish={'v': ['lit', 2], 'u': ['lit', 2]},
+                     **{'on-success-publish': {'branch': {'v': ['lit', 3]}},
+                        'on-success': ['d']}),
+            other: T(**{'on-success': ['d']}),
+            'd': T(join='all', publish={'w': ['var', 'v']})},
+            input={'w': 0, 'u': 0}, output=out)
+        P['clause_complete_vs_state_%s' % fresh] = direct({
+            'a': T(publish={'v': ['lit', 1]}, **{'on-success': ['b', 'c']}),
+            fresh: T(**{'on-complete-publish': {'branch': {'v': ['lit', 4],
+                                                           'x': ['lit', 4]}},
+                        'on-success-publish': {'branch': {'v': ['lit', 5]}},
+                        'on-error-publish': {'branch': {'v': ['lit', 6]}},
+                        'on-complete': ['d']}),
+            other: T(**{'on-complete': ['d']}),
+            'd': T(join='all', publish={'w': ['var', 'v']})},
+            input={'w': 0, 'x': 0}, output=out)
+    P['clause_global_seq'] = direct({
+        'a': T(**{'on-success-publish': {'global': {'g': ['lit', 7]},
+                                         'branch': {'v': ['lit', 1]}},
+                  'on-success': ['b']}),
+        'b': T(publish={'w': ['var', 'g']})},
+        input={'w': 0, 'v': 0, 'g': 0},
+        output={'g': ['var', 'g'], 'w': ['var', 'w'], 'v': ['var', 'v']})
+    P['clause_global_overrides_input'] = direct({
+        'a': T(**{'on-error-publish': {'global': {'g': ['lit', 8]}},
+                  'on-success-publish': {'global': {'g': ['lit', 9]}},
+                  'on-complete': ['b']}),
+        'b': T(publish={'w': ['var', 'g']})},
+        input={'w': 0, 'g': 0}, output={'g': ['var', 'g'], 'w': ['var', 'w']})
     P['chain_inc'] = direct({
         'a': T(publish={'v': ['lit', 1]}, **{'on-success': ['b']}),
         'b': T(publish={'v': ['inc', 'v']}, **{'on-success': ['c']}),
